@@ -670,8 +670,9 @@ pub fn build_default_config(conf: &crate::config::Config, request: &DHCPRequest)
                     match_subnet: Some(subnet),
                     apply_address: Some(
                         /* Everything except the first (network) and last (broadcast) address */
-                        (1..((1 << (32 - p4.prefixlen)) - 1))
-                            .map(|offset| (u32::from(subnet.network()) + offset).into())
+                        /* 64 bit arithmetic: a /0 has 2^32 addresses */
+                        (1..((1_u64 << (32 - p4.prefixlen)) - 1))
+                            .map(|offset| (u32::from(subnet.network()) + offset as u32).into())
                             // TODO: This removes one IP from the list, it should also remove any
                             // others found on the local machine.  Probably fine for now, but
                             // likely to cause confusion in the future.
